@@ -621,7 +621,15 @@ r_expand(const Expansion &expansion, const vector_string &args,
          bool expand_undefined, const Ignores &ignores) const {
   std::string result;
 
+  // True while the left-hand operand of a pending ## is empty (a
+  // "placemarker"): pasting to it yields the right-hand operand unchanged,
+  // which must not be glued to whatever happens to precede it.
+  bool lhs_empty = true;
+
   for (const ExpansionNode &node : expansion) {
+    const bool paste = node._paste && !lhs_empty;
+    const size_t size_before = result.size();
+
     if (node._parm_number >= 0) {
       int i = node._parm_number;
 
@@ -652,7 +660,7 @@ r_expand(const Expansion &expansion, const vector_string &args,
       }
 
       if (!subst.empty()) {
-        if (result.empty() || node._paste || result.back() == '(') {
+        if (result.empty() || paste || result.back() == '(') {
           result += subst;
         } else {
           result += ' ';
@@ -661,7 +669,7 @@ r_expand(const Expansion &expansion, const vector_string &args,
       }
     }
     if (!node._str.empty()) {
-      if (result.empty() || node._paste || node._str[0] == ',' || node._str[0] == ')') {
+      if (result.empty() || paste || node._str[0] == ',' || node._str[0] == ')') {
         result += node._str;
       } else {
         result += ' ';
@@ -676,13 +684,15 @@ r_expand(const Expansion &expansion, const vector_string &args,
       if (node._stringify) {
         nested_result = stringify(nested_result);
       }
-      if (result.empty() || node._paste) {
+      if (result.empty() || paste) {
         result += nested_result;
       } else {
         result += ' ';
         result += nested_result;
       }
     }
+
+    lhs_empty = (result.size() == size_before) && (lhs_empty || !node._paste);
   }
 
   return result;
